@@ -91,7 +91,7 @@ func genCase(t *rapid.T) Case {
 		return rapid.SampledFrom([]int64{0o644, 0o600, 0o755, 0o777, 0o4755, 0o444}).Draw(t, label)
 	}
 	add := func(e TEntry) { c.Entries = append(c.Entries, e) }
-	tmpl := rapid.IntRange(0, 11).Draw(t, "template")
+	tmpl := rapid.IntRange(0, 12).Draw(t, "template")
 	pm := rapid.SampledFrom([]int{0, 0, 0, 1, 2}).Draw(t, "prefixMode")
 	switch tmpl {
 	case 0: // symlink, then write through it
@@ -135,6 +135,18 @@ func genCase(t *rapid.T) Case {
 		add(TEntry{Type: "sym", Name: "name/d1/d2/s2", Link: rapid.SampledFrom([]string{"../..", "..", "../../a"}).Draw(t, "q11")})
 		add(TEntry{Type: "link", Name: "name/d1/d2/h", Link: rapid.SampledFrom([]string{"s2/../../victim.txt", "s2/../victim.txt", "s2/../../out/victim.txt", "s2/../../../victim.txt", "s2/../../wd-backup/x"}).Draw(t, "l11")})
 		add(TEntry{Type: "reg", Name: "name/d1/d2/h", Mode: mode("m"), Data: "through-hard-link"})
+	case 12: // hard link whose target lies BEHIND a symlink that leads out of the tree
+		// (a link pre-populated in the extraction directory, or one the archive builds
+		// from targets that are lexically inside: x -> ".", l -> "x/x/../..")
+		if rapid.Bool().Draw(t, "builtByArchive") {
+			add(TEntry{Type: "sym", Name: "name/x", Link: "."})
+			add(TEntry{Type: "sym", Name: "name/l", Link: rapid.SampledFrom([]string{"x/x/../..", "x/x/x/../../..", "x/.."}).Draw(t, "l12")})
+			add(TEntry{Type: "link", Name: "name/h", Link: rapid.SampledFrom([]string{"l/victim.txt", "l/out/victim.txt", "l/wd-backup/x", "l/../victim.txt"}).Draw(t, "h12")})
+		} else {
+			c.PrePop = 2 // name/s2 -> <out>, name/s1 -> <out>/victim.txt exist already
+			add(TEntry{Type: "link", Name: "name/h", Link: rapid.SampledFrom([]string{"s2/victim.txt", "s2/odir/f", "s1"}).Draw(t, "h12b")})
+		}
+		add(TEntry{Type: "reg", Name: "name/h", Mode: mode("m"), Data: "through-link-behind-symlink"})
 	case 5: // benign tree
 		add(TEntry{Type: "dir", Name: "name/d1/", Mode: 0o755})
 		add(TEntry{Type: "reg", Name: "name/d1/a", Mode: mode("m"), Data: "hello"})
